@@ -49,6 +49,8 @@ func vFamily(f int) []uint32 {
 		return []uint32{5, 40000}
 	case 4:
 		return []uint32{0, 1, 2, 3}
+	case 6:
+		return []uint32{3, 64, 16384}
 	case 5: // block 0 completely full (anonymous rows), tracked rows at the start of block 1
 		return []uint32{16384, 16385, 16386}
 	}
